@@ -8,6 +8,9 @@ package interceptor
 import (
 	"context"
 	"fmt"
+	commonpb "go.temporal.io/api/common/v1"
+	enumspb "go.temporal.io/api/enums/v1"
+	"google.golang.org/protobuf/reflect/protoreflect"
 	"strings"
 	"testing"
 
@@ -24,6 +27,9 @@ type c15ipCase struct {
 	Method  string   `json:"method"`
 	Headers []string `json:"headers,omitempty"` // caller-supplied request metadata, "key=value"
 	WithNS  bool     `json:"with_ns,omitempty"` // the policy also lists allowed namespaces; the request names only allowed ones
+	// OpaqueBlob: every event-blob field of the request holds a batch that cannot be decoded (legacy data with invalid
+	// UTF-8 outside failure messages, an unknown encoding). Without a namespace list there is nothing in it to check.
+	OpaqueBlob bool `json:"opaque_blob,omitempty"`
 }
 
 // request metadata the proxy gives a meaning to somewhere; a remote caller can set any of it
@@ -61,6 +67,9 @@ func c15ipRun(c c15ipCase) error {
 			func(any, grpc.ServerStream) error { called++; return nil })
 	} else {
 		req := vfshared.NewMessage(m.In)
+		if c.OpaqueBlob {
+			c15SetOpaqueBlobs(req.ProtoReflect())
+		}
 		if c.WithNS {
 			vfshared.FillEmptyNamespaces(req.ProtoReflect(), "allowed-ns")
 		}
@@ -87,6 +96,26 @@ func c15ipRun(c c15ipCase) error {
 		return fmt.Errorf("allow-list %v: %s must be forwarded (err=%v, handler calls=%d)", c.Allowed, m.Name, err, called)
 	}
 	return nil
+}
+
+// c15SetOpaqueBlobs puts an undecodable batch into every top-level event-blob field of m; it returns how many.
+func c15SetOpaqueBlobs(m protoreflect.Message) int {
+	n := 0
+	fs := m.Descriptor().Fields()
+	for i := 0; i < fs.Len(); i++ {
+		fd := fs.Get(i)
+		if fd.Message() == nil || fd.Message().FullName() != "temporal.api.common.v1.DataBlob" || !vfshared.EventBlobFields[string(fd.FullName())] {
+			continue
+		}
+		blob := &commonpb.DataBlob{EncodingType: enumspb.ENCODING_TYPE_PROTO3, Data: []byte("\x0a\x05\xff\xfe\xfd\xfc\xfb-not-a-history-batch")}
+		if fd.IsList() {
+			m.Mutable(fd).List().Append(protoreflect.ValueOfMessage(blob.ProtoReflect()))
+		} else {
+			m.Set(fd, protoreflect.ValueOfMessage(blob.ProtoReflect()))
+		}
+		n++
+	}
+	return n
 }
 
 func TestVF_C15_InProcess(t *testing.T) {
@@ -133,6 +162,15 @@ func TestVF_C15_InProcess(t *testing.T) {
 						t.Fatalf("C15 violated: %v (replay %s)", err, p)
 					}
 					st.Case(vfshared.Fingerprint(cn), m.Service == "admin" && len(l) == 1)
+				}
+				if hi == 0 && !m.ClientStream && !m.ServerStream && c15SetOpaqueBlobs(vfshared.NewMessage(m.In).ProtoReflect()) > 0 {
+					co := c15ipCase{Allowed: l, Method: m.FullMethod, OpaqueBlob: true}
+					if err := c15ipRun(co); err != nil {
+						p := vfshared.WriteReplay("C15", part, co)
+						st.Violation(p, err.Error())
+						t.Fatalf("C15 violated: %v (replay %s)", err, p)
+					}
+					st.Case(vfshared.Fingerprint(co), true, "request_with_an_undecodable_event_batch")
 				}
 				c := c15ipCase{Allowed: l, Method: m.FullMethod, Headers: hs}
 				if err := c15ipRun(c); err != nil {
